@@ -272,6 +272,63 @@ Proof.
   - apply Hts; lia.
 Qed.
 
+(* ---------- all groups of the merged series ---------- *)
+Lemma om_empty_wf g : Forall (fun c => wf_chunk c = true) g -> om_empty g = true -> g = [].
+Proof.
+  intros H He. destruct g as [|c g]; [reflexivity|]. inversion H; subst.
+  destruct (wf_chunk_inv c H2) as (c0 & c1 & c2 & c3 & c4 & -> & _).
+  simpl in He. discriminate.
+Qed.
+
+Lemma take_group_wf : forall rest omax prev g r',
+  take_group omax prev rest = (g, r') -> Forall (fun c => wf_chunk c = true) rest ->
+  Forall (fun c => wf_chunk c = true) g /\ Forall (fun c => wf_chunk c = true) r' /\ (length r' <= length rest)%nat.
+Proof.
+  induction rest as [|c r IH]; intros omax prev g r' E H; cbn [take_group] in E.
+  - inversion E; subst. repeat split; auto.
+  - inversion H; subst. destruct (c_mint c >? omax).
+    + inversion E; subst. repeat split; auto.
+    + destruct (achunk_eqb c prev).
+      * destruct (IH _ _ _ _ E H3) as (A & B & L). repeat split; auto. simpl. lia.
+      * destruct (take_group (Z.max omax (c_maxt c)) c r) as [g0 r0] eqn:E0.
+        inversion E; subst. destruct (IH _ _ _ _ E0 H3) as (A & B & L).
+        repeat split; auto. simpl. lia.
+Qed.
+
+Lemma passthrough_ok c : wf_chunk c = true -> ochunk_ok (passthrough c) = true.
+Proof.
+  intro H. destruct (wf_chunk_inv c H) as (c0 & c1 & c2 & c3 & c4 & -> & _ & _ & T1 & T2 & T3 & T4).
+  unfold passthrough, ochunk_ok. rewrite !tss_eq. rewrite T1, T2, T3, T4. rewrite !zlist_eqb_refl. reflexivity.
+Qed.
+
+Lemma series_loop_ok : forall fuel chunks,
+  (length chunks <= fuel)%nat -> Forall (fun c => wf_chunk c = true) chunks ->
+  exists out, merge_series_loop fuel chunks = Some out /\ forallb ochunk_ok out = true.
+Proof.
+  induction fuel as [|f IH]; intros chunks Hl Hw.
+  - destruct chunks; [exists []; split; reflexivity|simpl in Hl; lia].
+  - destruct chunks as [|base rest]; [exists []; split; reflexivity|].
+    inversion Hw; subst. cbn [merge_series_loop].
+    destruct (take_group (c_maxt base) base rest) as [grp rest'] eqn:E.
+    destruct (take_group_wf _ _ _ _ _ E H2) as (Hg & Hr & Hlen).
+    destruct (IH rest') as (out2 & E2 & O2); [simpl in Hl; lia|exact Hr|].
+    rewrite E2.
+    destruct (om_empty grp) eqn:Eo.
+    + exists ([passthrough base] ++ out2). split; [reflexivity|].
+      rewrite forallb_app. rewrite O2. cbn [forallb]. rewrite (passthrough_ok base H1). reflexivity.
+    + destruct grp as [|o1 others]; [discriminate|].
+      assert (Ho1 : wf_chunk o1 = true) by (inversion Hg; assumption).
+      assert (Hot : Forall (fun c => wf_chunk c = true) others) by (inversion Hg; assumption).
+      destruct (every_timestamp base o1 others H1 Ho1 Hot) as (out1 & E1 & O1).
+      rewrite E1. exists (out1 ++ out2). split; [reflexivity|].
+      rewrite forallb_app, O1, O2. reflexivity.
+Qed.
+
+Theorem every_timestamp_series chunks :
+  Forall well_formed chunks ->
+  exists out, merge_series chunks = Some out /\ forallb ochunk_ok out = true.
+Proof. intro H. apply series_loop_ok; [unfold merge_series; lia|exact H]. Qed.
+
 (* ---------- model = implementation on a case implies the predicate on that case ---------- *)
 Lemma sample_eqb_spec x y : sample_eqb x y = true <-> x = y.
 Proof.
@@ -294,16 +351,12 @@ Proof.
   split; [intros [[-> ->] ->]; reflexivity|intro E; inversion E; auto].
 Qed.
 
-Lemma corr_implies_pred c :
-  corr_ok c = true ->
-  (exists b o1 o, case_input c = Some (b, o1 :: o)) ->
-  pred_ok c = true.
+Lemma corr_implies_pred c : corr_ok c = true -> pred_ok c = true.
 Proof.
-  unfold corr_ok, pred_ok. intros Hc (b & o1 & o & E). rewrite E in *.
+  unfold corr_ok, pred_ok. intros Hc.
   apply (option_eqb_spec _ (list_eqb_spec _ ochunk_eqb_spec)) in Hc.
-  destruct (wf_chunk b && forallb wf_chunk (o1 :: o)) eqn:Ewf; [|reflexivity].
-  apply andb_true_iff in Ewf as [Hb Ho]. cbn [forallb] in Ho. apply andb_true_iff in Ho as [Ho1 Ho].
-  destruct (every_timestamp b o1 o Hb Ho1) as (out & Hm & Hok).
-  - apply Forall_forall. intros x Hx. exact (proj1 (forallb_forall _ _) Ho x Hx).
+  destruct (forallb wf_chunk (case_input c)) eqn:Ewf; [|reflexivity].
+  destruct (every_timestamp_series (case_input c)) as (out & Hm & Hok).
+  - apply Forall_forall. intros x Hx. exact (proj1 (forallb_forall _ _) Ewf x Hx).
   - rewrite Hm in Hc. inversion Hc; subst. exact Hok.
 Qed.
